@@ -16,7 +16,7 @@
    "one mutex per key" theorem of Props/C09.v deliberately excludes ClearKey.
    Statements only; proofs are [exact] of theorems of SyncMap/ClearKey.v (which
    builds on SyncMap/Inv.v, SyncMap/SetAtomic.v and SyncMap/InsertOnly.v). *)
-From Typ Require Import SyncMap.Model SyncMap.Inv SyncMap.KeyedMutex SyncMap.InsertOnly SyncMap.ClearKey.
+From Typ Require Import SyncMap.Model SyncMap.Inv SyncMap.KeyedMutex SyncMap.InsertOnly SyncMap.ClearKey SyncMap.Uncontended.
 
 Theorem C09_mutual_exclusion_with_clearkey : forall progs sched,
   ck_progs progs -> disc2_from (init_config 1 progs) sched ->
@@ -79,14 +79,26 @@ Theorem C09_rlock_waits_while_write_held_with_clearkey : forall progs sched,
 Proof. exact ck_rlock_waits_while_write_held. Qed.
 Print Assumptions C09_rlock_waits_while_write_held_with_clearkey.
 
-(* the "succeeds when free" halves, for fresh mutexes ([fresh_values], as in Props/C09.v); note that the
-   key may have NO mutex at this moment (it was cleared): then LoadOrStore has just created one *)
+(* the Try* step can always be taken and completes the call with a boolean *)
+Theorem C09_try_step_enabled_with_clearkey : forall progs sched,
+  ck_progs progs -> disc2_from (init_config 1 progs) sched ->
+  let c := run_schedule (init_config 1 progs) sched in
+  forall t ch f, top_frame c t = Some f -> is_try (f_pc f) = true ->
+  exists c' b, step c t ch = Some c' /\ completed (c_hist c') = completed (c_hist c) ++ [(t, f_call f, RBool b)].
+Proof. exact ck_try_step_enabled. Qed.
+Print Assumptions C09_try_step_enabled_with_clearkey.
+
+(* the "succeeds when free AND UNCONTENDED" halves, for fresh mutexes ([fresh_values]) and with
+   [uncontended c t k] (nobody else stands at a blocking Lock / RLock step of k: needed for the real
+   sync.Mutex / sync.RWMutex, see Props/C09.v); note that the key may have had NO mutex when the call began
+   (it was cleared): then its LoadOrStore has just created one *)
 Theorem C09_trylock_succeeds_when_key_free_with_clearkey : forall progs sched,
   ck_progs progs -> disc2_from (init_config 1 progs) sched -> fresh_values progs ->
   let c := run_schedule (init_config 1 progs) sched in
   forall t ch c' f,
   top_frame c t = Some f -> (f_pc f = KM_TryLock \/ f_pc f = KRW_TryLock) ->
-  (forall t2 b, (t2, key_of (f_call f), b) ∉ holders c) -> step c t ch = Some c' ->
+  (forall t2 b, (t2, key_of (f_call f), b) ∉ holders c) -> uncontended c t (key_of (f_call f)) ->
+  step c t ch = Some c' ->
   completed (c_hist c') = completed (c_hist c) ++ [(t, f_call f, RBool true)] /\ holds_excl c' t (key_of (f_call f)).
 Proof. exact ck_trylock_succeeds_when_key_free. Qed.
 Print Assumptions C09_trylock_succeeds_when_key_free_with_clearkey.
@@ -96,7 +108,8 @@ Theorem C09_tryrlock_succeeds_when_key_not_write_held_with_clearkey : forall pro
   let c := run_schedule (init_config 1 progs) sched in
   forall t ch c' f,
   top_frame c t = Some f -> f_pc f = KRW_TryRLock ->
-  (forall t2, ~ holds_excl c t2 (key_of (f_call f))) -> step c t ch = Some c' ->
+  (forall t2, ~ holds_excl c t2 (key_of (f_call f))) -> uncontended c t (key_of (f_call f)) ->
+  step c t ch = Some c' ->
   completed (c_hist c') = completed (c_hist c) ++ [(t, f_call f, RBool true)] /\ holds_shared c' t (key_of (f_call f)).
 Proof. exact ck_tryrlock_succeeds_when_key_not_write_held. Qed.
 Print Assumptions C09_tryrlock_succeeds_when_key_not_write_held_with_clearkey.
@@ -106,7 +119,7 @@ Theorem C09_lock_succeeds_when_key_free_with_clearkey : forall progs sched,
   let c := run_schedule (init_config 1 progs) sched in
   forall t ch f,
   top_frame c t = Some f -> (f_pc f = KM_Lock \/ f_pc f = KRW_Lock) ->
-  (forall t2 b, (t2, key_of (f_call f), b) ∉ holders c) ->
+  (forall t2 b, (t2, key_of (f_call f), b) ∉ holders c) -> uncontended c t (key_of (f_call f)) ->
   exists c', step c t ch = Some c' /\ completed (c_hist c') = completed (c_hist c) ++ [(t, f_call f, RUnit)] /\
              holds_excl c' t (key_of (f_call f)).
 Proof. exact ck_lock_succeeds_when_key_free. Qed.
@@ -117,7 +130,7 @@ Theorem C09_rlock_succeeds_when_key_not_write_held_with_clearkey : forall progs 
   let c := run_schedule (init_config 1 progs) sched in
   forall t ch f,
   top_frame c t = Some f -> f_pc f = KRW_RLock ->
-  (forall t2, ~ holds_excl c t2 (key_of (f_call f))) ->
+  (forall t2, ~ holds_excl c t2 (key_of (f_call f))) -> uncontended c t (key_of (f_call f)) ->
   exists c', step c t ch = Some c' /\ completed (c_hist c') = completed (c_hist c) ++ [(t, f_call f, RUnit)] /\
              holds_shared c' t (key_of (f_call f)).
 Proof. exact ck_rlock_succeeds_when_key_not_write_held. Qed.
@@ -138,4 +151,14 @@ Example C09_example_clearkey :
      [(2001%Z, ULocked); (1001%Z, UFree); (3001%Z, ULocked)], (Some 2001%Z, Some 3001%Z)) /\
   ck_ex_obs (run_schedule (init_config 1 ck_ex_progs) (ck_ex_sched 30)) =
     ([None; None], [(1%nat, 8%Z, true)], [(2001%Z, UFree); (1001%Z, UFree); (3001%Z, ULocked)], (Some 2001%Z, Some 3001%Z)).
+Proof. vm_compute. repeat split. Qed.
+
+(* Non-vacuity of the key-level theorems with [uncontended]: in the run above, after the ClearKey(7), thread 1
+   stands at the Lock step of its LockKey(7); key 7 is free (its new mutex 2001 was just created) and
+   uncontended; the step is enabled and thread 1 then holds key 7. *)
+Example C09_example_clearkey_uncontended :
+  let c := run_schedule (init_config 1 ck_ex_progs) (ck_ex_sched 4 ++ [(1%nat, 0%Z)]) in
+  map thread_label (c_threads c) = [None; Some KM_Lock] /\ holders c = [(1%nat, 8%Z, true)] /\
+  uncontendedb c 1 7 = true /\
+  option_map holders (step c 1 0) = Some [(1%nat, 8%Z, true); (1%nat, 7%Z, true)].
 Proof. vm_compute. repeat split. Qed.
